@@ -34,6 +34,9 @@ def pl (c impl : List String) : Option Verdict := do
     pure (d, e, v, p, s, ts)) c
   let out := ts.map fun t => prefixLifetimes dep epoch V Pf t
   let flat := out.flatMap fun (v, p) => [toString v, toString p]
+  if impl.contains "apply-failed" then
+    return { model := " ".intercalate flat, oracle := false, nontrivial := true,
+             note := "Apply failed although the plugin was prepared (Prepare must install the clock)" }
   let implI ← impl.mapM String.toInt?
   let ip ← triples implI
   if ip.length != ts.length then none
@@ -55,6 +58,9 @@ def rl (c impl : List String) : Option Verdict := do
     let d ← P.bool; let e ← P.int; let l ← P.int; let s ← P.int; let ts ← P.list P.int
     pure (d, e, l, s, ts)) c
   let out := ts.map fun t => routeLifetime dep epoch L t
+  if impl.contains "apply-failed" then
+    return { model := " ".intercalate (out.map toString), oracle := false, nontrivial := true,
+             note := "Apply failed although the plugin was prepared (Prepare must install the clock)" }
   let implI ← impl.mapM String.toInt?
   let ip ← pairs implI
   if ip.length != ts.length then none
